@@ -104,7 +104,7 @@ def contents(tier, rnd):
         ('utf8-str', 'ünïcödé ☃ \U0001F600 text\n'), ('utf8-bytes', 'naïve café ☃'.encode('utf-8')),
         ('latin1-bytes', 'caf\xe9 na\xefve'.encode('latin-1')),
         ('crlf-str', 'line one\r\nline two  \r\n\r\n- dashed\r\nFrom here\n'),
-        ('binary', rnd.randbytes(3000)), ('binary-short', b'\xff\xfe\x00\x80binary'),
+        ('binary', rnd.randbytes(3000)), ('binary-short', b'\xff\xfe\x00\x80binary'), ('nul-tail', b'ends in NUL octets\x00\x00\x00'),
         ('far-repeat', rnd.randbytes(20000) * 2 + b'tail'),       # a repetition 20000 octets back: needs more than an 8 KiB DEFLATE window
         ('big-random', rnd.randbytes(big)), ('big-text', ('All work and no play makes Jack a dull boy. ' * 64 + '\n') * (big // 2817 + 1)),
     ])
